@@ -24,6 +24,8 @@
                   refused (intended: KeyError before anything is touched)
      DevDelCertView  Key.del_cert raises AttributeError (calls a method that does not exist)
      DevCertObj   get_signer({'cert': <Certificate object>}) raises KeyError (Certificate.name is wire bytes)
+     DevEmptyObj  get_signer({'key': <Key object without certificates>}) / ({'identity': <Identity object
+                  without keys>}) is answered as get_signer({}) (an empty Mapping is falsy: "no key given")
 
    Parameters of the calls that do not change what the call means (same program, same result) but choose
    another public entry point / argument shape; they overload otherwise unused fields of the op record:
@@ -59,7 +61,7 @@
 EXTENDS Naturals, Sequences, FiniteSets, TLC
 
 CONSTANTS Ids, MaxKeys, Depth, MaxLevel, MaxFaults, DevScope, DevCacheLoc, DevDelKey,
-          DevKeyId, DevDelCertView, DevCertObj
+          DevKeyId, DevDelCertView, DevCertObj, DevEmptyObj
 
 KeyN == 1..MaxKeys
 Keys == Ids \X KeyN
@@ -177,10 +179,15 @@ DefCertOf(db, k) == LET d == db.dC \cap CertsOf(db, k) IN
                     IF d = {} THEN Unres ELSE [ok |-> TRUE, key |-> k, cert |-> CHOOSE c \in d : TRUE]
 DefKeyOf(db, i) == LET d == db.dK \cap KeysOf(db, i) IN
                    IF d = {} THEN Unres ELSE DefCertOf(db, CHOOSE k \in d : TRUE)
+ResolveDefault(db) == IF db.dI = {} THEN Unres ELSE DefKeyOf(db, CHOOSE i \in db.dI : TRUE)
 Resolve(o, db) ==
-  CASE o.by = "default" -> IF db.dI = {} THEN Unres ELSE DefKeyOf(db, CHOOSE i \in db.dI : TRUE)
-    [] o.by = "identity" -> IF o.i \in db.ids THEN DefKeyOf(db, o.i) ELSE Unres
-    [] o.by = "key" -> IF o.k[1] \in db.ids /\ o.k \in db.keys THEN DefCertOf(db, o.k) ELSE Unres
+  CASE o.by = "default" -> ResolveDefault(db)
+    [] o.by = "identity" ->
+         IF o.i \notin db.ids THEN Unres
+         ELSE IF DevEmptyObj /\ o.t = "obj" /\ KeysOf(db, o.i) = {} THEN ResolveDefault(db) ELSE DefKeyOf(db, o.i)
+    [] o.by = "key" ->
+         IF ~(o.k[1] \in db.ids /\ o.k \in db.keys) THEN Unres
+         ELSE IF DevEmptyObj /\ o.t = "obj" /\ CertsOf(db, o.k) = {} THEN ResolveDefault(db) ELSE DefCertOf(db, o.k)
     [] o.by = "cert" -> [ok |-> TRUE, key |-> o.c[1], cert |-> o.c]
 LocOf(o, r) == IF o.loc = "custom" THEN [t |-> "custom", c |-> NoCert] ELSE [t |-> "cert", c |-> r.cert]
 CacheHit(S, key, loc) == {e \in S.cache : e.loc = loc /\ (DevCacheLoc \/ e.key = key)}
@@ -229,15 +236,16 @@ Plan(o, S) ==
          THEN [prog |-> << Stp("tpmGet", TRUE) >>, res |-> NoRes("keyerr")]
          ELSE IF ~r.ok THEN [prog |-> <<>>, res |-> NoRes("keyerr")]
          ELSE LET loc == LocOf(o, r)
+                  sel == IF o.by = "key" THEN o.k ELSE r.key         \* the key the arguments select
                   hit == CacheHit(S, r.key, loc) IN
               IF hit # {}
               THEN [prog |-> <<>>, res |-> LET e == CHOOSE e \in hit : TRUE IN
-                                           [out |-> "ok", sel |-> r.key, got |-> IF e.bad THEN NoKey ELSE e.key,
+                                           [out |-> "ok", sel |-> sel, got |-> IF e.bad THEN NoKey ELSE e.key,
                                             lt |-> loc.t, lc |-> loc.c]]
               ELSE IF r.key \notin S.tpm THEN [prog |-> << Stp("tpmGet", TRUE) >>, res |-> NoRes("keyerr")]
               ELSE [prog |-> << Stp("tpmGet", TRUE),
                                [Stp("cachePut", FALSE) EXCEPT !.k = r.key, !.t = loc.t, !.c = loc.c] >>,
-                    res |-> [out |-> "ok", sel |-> r.key, got |-> IF r.key \in S.mis THEN NoKey ELSE r.key,
+                    res |-> [out |-> "ok", sel |-> sel, got |-> IF r.key \in S.mis THEN NoKey ELSE r.key,
                              lt |-> loc.t, lc |-> loc.c]]
     [] o.op = "Close" -> [prog |-> << Stp("rollback", FALSE), CacheReset >>, res |-> NoRes("ok")]
 
@@ -309,6 +317,8 @@ Enabled(o, S) ==
             [] o.by = "cert" -> o.c \in db.certs \/ (o.t = "none" /\ o.c[1] \in S.gone \cup S.xgone /\ o.loc = "cert"))
     [] o.op = "Close" -> TRUE
 
+\* calls whose program can contain a private-key-store step
+TpmOps == {o \in AllOps : o.op \in {"TouchIdentity", "NewKey", "DelKey", "DelIdentity", "GetSigner"} /\ o.loc # "ext"}
 Ops(S) == {o \in AllOps : Enabled(o, S)}
 SignOps(S) == {o \in SignBase : Enabled(o, S)}
 
@@ -341,7 +351,8 @@ Fail(o, n, m) == /\ More /\ st.open /\ (MaxFaults >= Unlimited \/ st.nf < MaxFau
 Reopen == More /\ ~st.open /\ st' = Tick([st EXCEPT !.open = TRUE])
 
 Next == \/ \E o \in AllOps : Step(o)
-        \/ \E o \in AllOps : \E n \in 1..MaxPts : \E m \in {"call", "io"} : Fail(o, n, m)
+        \/ \E o \in AllOps : \E n \in 1..MaxPts : Fail(o, n, "call")
+        \/ \E o \in TpmOps : \E n \in 1..MaxPts : Fail(o, n, "io")
         \/ Reopen
 Spec == Init /\ [][Next]_st
 
@@ -377,6 +388,7 @@ SignerMatchesKeyS(S) ==
   \A o \in SignOps(S) : LET r == Plan(o, S).res IN
      r.out = "ok" => /\ r.got = r.sel
                      /\ (o.by # "cert" => r.sel \in S.cur.keys)
+                     /\ (o.by = "identity" => r.sel[1] = o.i)
                      /\ (o.by # "cert" /\ o.loc = "cert" => r.lc \in S.cur.dC /\ r.lc[1] = r.sel)
                      /\ (o.by = "cert" /\ o.loc = "cert" => r.lc = o.c /\ r.sel = o.c[1])
                      /\ (o.loc = "custom" <=> r.lt = "custom")
@@ -417,7 +429,7 @@ RetryOk(o, S, n) ==
   /\ (o.op = "ImportCert" => <<o.k, 2>> \in T.cur.certs)
   /\ (o.op \in {"NewIdentity", "TouchIdentity"} => o.i \in T.cur.ids)
   \* new_key with an explicit key_id names the same key again: the retry completes it, key pair intact
-  /\ (o.op = "NewKey" => out = "ok" /\ o.k \in T.cur.keys /\ o.k \in T.tpm /\ o.k \notin T.mis)
+  /\ (o.op = "NewKey" => o.k \in T.cur.keys /\ o.k \in T.tpm /\ o.k \notin T.mis)
 \* (a retried new_key without key_id makes another key: not judged; nor the calls of the second instance)
 RetryAfterFailureOkS(S) ==
   \A o \in Ops(S) : (/\ o.op \notin {"GetSigner", "Close"} /\ o.loc # "ext"
